@@ -111,3 +111,17 @@ Theorem C10_nonvacuous : exists s,
     [(4, DroppedOffField); (1, DroppedFlag); (2, Executed); (0, Executed); (5, Executed); (3, DroppedDead)] /\
   texecs (s_trace s) = [2; 0; 5].
 Proof. exact demo_runs. Qed.
+
+From SR Require Model.SimSkeleton Model.SimSkeletonInterp Gen.RunSkeleton Proofs.RunSkeletonProofs Proofs.RunSkeletonInterpProofs.
+
+(* WHERE the queue is drained, as the source says it.  `go2coq RunSkeleton` translates run.go, action.go and death.go
+   into a first-order table of steps (Gen/RunSkeleton.v, regenerated on every run).  The table equals the pinned
+   table Model/SimSkeleton.v - executeQueue is called exactly by engage (info.BattleStart), phase1
+   (info.InsertAbilityPhase1, before Phase1End) and phase2 (info.InsertAbilityPhase2, between Phase2Start and the
+   ModifierPhase2 tick; none after Phase2End or in endTurn); startBattle does not touch sim.Queue; the body of
+   executeQueue (ult check, guard with the constant values of the phases, pop, the three drop tests, execute, death
+   check, exit check, ult check) is pinned step by step - and the interpretation of the generated state functions
+   over the model's own execute_queue is Sim.one_turn / the battle-start drain of Sim.start. *)
+Theorem C10_run_skeleton_is_the_source : Proofs.RunSkeletonInterpProofs.run_skeleton_tie.
+Proof. exact Proofs.RunSkeletonInterpProofs.run_skeleton_is_the_source. Qed.
+Print Assumptions C10_run_skeleton_is_the_source.
